@@ -32,6 +32,12 @@ Proof. exact letters_ok_upto_27. Qed.
 Check c27_letters_ok_upto_27 : forall n up, (0 < n)%N -> (n < 28)%N -> to_letters n up = spec_letters up n.
 Print Assumptions c27_letters_ok_upto_27.
 
+(** the executable letters predicate used by [spec_number_ok] is equality with [spec_letters] *)
+Theorem c27_letters_match_iff : forall up n out, letters_match up n out = true <-> out = spec_letters up n.
+Proof. exact letters_match_iff. Qed.
+Check c27_letters_match_iff : forall up n out, letters_match up n out = true <-> out = spec_letters up n.
+Print Assumptions c27_letters_match_iff.
+
 (** ... KNOWN FINDING C27-letters-spreadsheet: refuted at 28 ("AB" where §12.4.2 has "BB") ... *)
 Theorem c27_letters_refuted :
   exists n up, to_letters n up <> spec_letters up n /\ to_letters n up = [65; 66]%N /\ spec_letters up n = [66; 66]%N.
